@@ -67,7 +67,7 @@ def gen_case(run_seed: int, index: int, tier: str) -> dict:
         "channel": ch, "p": p, "alphabet": alphabet, "dtype": dtype, "shape": shape,
         "input": rng.choice(["random", "random", "random", "sparse", "dense", "all_one", "all_zero"]),
         "erasure_symbol": es, "torch_seed": rng.randrange(1 << 31), "data_seed": rng.randrange(1 << 31),
-        "how": rng.choice(["class", "class", "registry"]), "p_as_tensor": rng.random() < 0.2,
+        "how": rng.choice(["class", "class", "registry", "positional", "keyword"]), "p_as_tensor": rng.random() < 0.2,
         "warmup": rng.choice([None, None, [3], [2, 5], [4, 1, 2]]),  # earlier calls on the same channel object, other shape
         "warmup_n": rng.choice([1, 1, 2, 4]), "other_instance_first": rng.random() < 0.2, "mode": rng.choice([None, None, "eval", "train"]),
         "module_cast": rng.choice([None, None, None, "double", "half", "bfloat16", "float", "to_cpu", "deepcopy"]),
@@ -107,10 +107,12 @@ def _channel(case):
             return ChannelRegistry.create("binaryerasurechannel", erasure_prob=p, erasure_symbol=case["erasure_symbol"])
         return ChannelRegistry.create("binaryzchannel", error_prob=p)
     if case["channel"] == "bsc":
-        return BinarySymmetricChannel(p)
+        return BinarySymmetricChannel(p) if case.get("how") != "keyword" else BinarySymmetricChannel(crossover_prob=p)
     if case["channel"] == "bec":
+        if case.get("how") == "positional":
+            return BinaryErasureChannel(p, case["erasure_symbol"])  # both documented parameters by position
         return BinaryErasureChannel(p, erasure_symbol=case["erasure_symbol"])
-    return BinaryZChannel(p)
+    return BinaryZChannel(p) if case.get("how") != "keyword" else BinaryZChannel(error_prob=p)
 
 
 def execute(case: dict) -> RunResult:
@@ -205,6 +207,21 @@ def execute(case: dict) -> RunResult:
         violate("p1_not_extreme", f"probability 1 but only {k} of {nel} eligible symbols were changed/erased")
     if p == 0.0 and case["channel"] != "bec" and not bool((yf == xf).all()):
         violate("p0_not_identity", "probability 0 but the output differs from the input")
+    # ---------------------------------------------------------------- a second use right after the first (no reseeding)
+    if inside and nel >= 50000 and list(y.shape) == list(x.shape):
+        y2 = ch(x)
+        y2f = y2.to(torch.float64)
+        if case["channel"] == "bec":
+            e2 = (y2f == float(case["erasure_symbol"])).reshape(-1)
+        else:
+            e2 = (y2f != xf).reshape(-1)
+            if case["channel"] == "z":
+                e2 = e2 & flat_ones
+        both = int((e & e2).sum())
+        ok, d = stats.binom_test(both, nel, p * p)
+        res.probes["stat.cross_call_tests"] += 1
+        if not ok:
+            violate("dependence_across_calls", f"two consecutive uses of the channel on the same input do not fault independently (joint rate vs p^2): {d}", stat=True)
     # ---------------------------------------------------------------- statistical clauses
     if inside and nel >= 1:
         res.nontrivial.append(core.short_hash(case))
